@@ -248,6 +248,28 @@ def gen_block_prefix_edit(rng, doc, texts):
     return []
 
 
+def gen_para_end_extend(rng, doc, texts):
+    """text appended to the very end of a paragraph / table cell, ending with a blank (the style source rule looks at
+    the run *behind* the insertion point then); -> list with 0 or 1 edit"""
+    word = WordSource(rng)
+    pvs = [ParaView(si, pi, p) for pi, (si, p) in enumerate(sem.all_paragraphs(doc))]
+    rng.shuffle(pvs)
+    for pv in pvs[:8]:
+        acc = pv.acc
+        if len(acc) < 3 or acc[-1]["c"] in " \n":
+            continue
+        a = len(acc) - 1
+        while a > 0 and acc[a - 1]["c"] != " " and len(acc) - a < 12:
+            a -= 1
+        e = _range_edit(rng, pv, texts, a, len(acc), word, kind="extend")
+        if not e or not e["in_raw"]:
+            continue
+        e["new"] = e["target"] + " " + word() + " "
+        e.update({"state": "plain", "rid": None, "at_para_end": True, "kind": "extend_blank_at_end"})
+        return [e]
+    return []
+
+
 def gen_cross_ins_edit(rng, doc, texts):
     """one edit that appends to / changes the tail of such a target (list with 0 or 1 edit)"""
     pvs = [ParaView(si, pi, p) for pi, (si, p) in enumerate(sem.all_paragraphs(doc))]
